@@ -30,6 +30,8 @@ package main
 //   h  (added, c13x.go) paste brackets over whole histories: state the widget keeps between calls
 //      (fields promoted to tracked state on demand) never makes a boundary go out while 2004 is
 //      reset nor stay in while it is set
+//   i  (added, c13y.go) the SGR round trip of c at column/row indices around and beyond the legacy
+//      single-byte limit (222 … 65534): no clamp or narrowing on the way to the decimal report
 
 import (
 	"fmt"
